@@ -359,7 +359,7 @@ def onTask (s : SSt) (i : Nat) (guard : Task → Bool) (f : Task → Task) (touc
 def sNext (c : SCfg) (s : SSt) : SAct → Option SSt
   | .sched => some { s with tasks := newTask c :: s.tasks }
   | .add i inl =>
-      onTask s i (fun t => t.phase == .fresh)
+      onTask s i (fun t => t.phase == .fresh && t.cstage == .toAdd)
         (fun t => { t with count := 1, phase := if inl then .running else .queued, byCaller := inl,
                            cstage := if inl then .adding else afterAdd c })
   | .popW i =>
